@@ -148,8 +148,11 @@ func NewMerkleBlock(block *bchutil.Block, filter *Filter) (*wire.MsgMerkleBlock,
 		height++
 	}
 
-	// Build the depth-first partial merkle tree.
-	mBlock.traverseAndBuild(height, 0)
+	// Build the depth-first partial merkle tree.  A block without
+	// transactions has no tree (and nothing to index).
+	if mBlock.numTx > 0 {
+		mBlock.traverseAndBuild(height, 0)
+	}
 
 	// Create and return the merkle block.
 	msgMerkleBlock := wire.MsgMerkleBlock{
